@@ -737,7 +737,18 @@ fn apply(text: &str, toks: &[Tok], edits: &[&Edit]) -> String {
     out
 }
 
-const NUMBER_REPLACEMENTS: &[&str] = &["0", "1", "'x", "64'hffff_ffff_ffff_ffff", "1000000"];
+// The last three: more written digits than the declared width / than 64 bits, with x/z fill above
+// bit 63 (truncation of based literals) and a value wider than 64 bits.
+const NUMBER_REPLACEMENTS: &[&str] = &[
+    "0",
+    "1",
+    "'x",
+    "64'hffff_ffff_ffff_ffff",
+    "1000000",
+    "8'hz_0000_0000_0000_0000",
+    "4'bx000_0000_0000_0000_0000_0000_0000_0000_0000_0000_0000_0000_0000_0000_0000_0000_0001",
+    "72'hff_0000_0000_0000_0001",
+];
 const IDENT_EXTRA: &[&str] = &["undefined_zz", "r#module"];
 
 /// Items that can be dropped as a whole: for every `{`/`(` group, the maximal token runs
@@ -1209,7 +1220,7 @@ fn cfg(cap_s: f64, batch: usize) -> Cfg {
 pub fn run(ctx: &Ctx) -> Report {
     let mut rep = Report::new(Level::Exploration);
     let thorough = ctx.thorough();
-    let budget = ctx.budget(36.0, 22.0 * 60.0);
+    let budget = ctx.budget(22.0, 22.0 * 60.0);
     let dir = ctx.dir("w");
     let sources = Arc::new(load_sources());
     if sources.len() < 100 && std::env::var("VMC_C11_ONLY").is_err() {
